@@ -365,7 +365,7 @@ theorem addV_sound (x y v : Val R) {r c r' c' : Nat} {M M' : MatF R} (hx : x.Rep
         simp only [addM]
         rw [show a i j = M i j from a3 i j hi hj,
           show b i j = M' i j from b3 i j (hs.1 ▸ hi) (hs.2 ▸ hj)]
-      · cases h
+      · split at h <;> cases h
 
 
 /-! ## `dot` (flattening of products, dropping identities) -/
@@ -1737,7 +1737,7 @@ theorem addV_dtype (x y v : Val R) (h : addV x y = .ok v) :
       · injection h with h
         subst h
         rfl
-      · cases h
+      · split at h <;> cases h
 
 theorem absorbs_eq {A I : Op R} (h : absorbs A I = true) :
     DType.promote A.dtype I.dtype = A.dtype := by
@@ -1939,7 +1939,7 @@ theorem addV_isArr (x y v : Val R) (h : addV x y = .ok v) :
       simp only [addV] at h
       split at h
       · injection h with h; subst h; rfl
-      · cases h
+      · split at h <;> cases h
 
 theorem dotRule_isOp (A B : Op R) (v : Val R) (h : dotRule A B = .ok v) : v.isArr = false := by
   rw [dotRule_eq] at h
